@@ -694,6 +694,103 @@ class PTranslator:
 
 UOP_OF_CLASS = {"SgnExpression": ".sgn", "AbsExpression": ".abs"}
 
+# The caching front of the parser: three short methods and the constructor.  They must be, statement for
+# statement, the code quoted here (compared as syntax trees; docstrings and annotations aside); the Lean text
+# below is the translation of exactly that code (dicts as association lists, `[:]` = handing out a value).
+CACHE_TEMPLATES = {
+    "__init__": """
+def __init__(self):
+    self.tokenizer = Tokenizer()
+    self.clear_cache()
+""",
+    "clear_cache": """
+def clear_cache(self):
+    self._tokens_cache = {}
+    self._parse_cache = {}
+""",
+    "tokenize": """
+def tokenize(self, input_text):
+    if input_text not in self._tokens_cache:
+        self._tokens_cache[input_text] = self.tokenizer.tokenize(input_text)
+    return self._tokens_cache[input_text][:]
+""",
+    "parse": """
+def parse(self, input_text):
+    if input_text in self._parse_cache:
+        return self._parse_cache[input_text]
+    self._parse_cache[input_text] = self._parse(self.tokenize(input_text))
+    return self._parse_cache[input_text]
+""",
+}
+CACHE_LEAN = """/-- `parser.py`: `ExpressionParser.clear_cache` -/
+def ExpressionParser_clear_cache (self_ : ParserObj) : ParserObj :=
+  { self_ with tokens_cache := [], parse_cache := [] }
+
+/-- `parser.py`: `ExpressionParser.__init__` (`Tokenizer()` = `exclude_padding=True`; then `clear_cache()`) -/
+def ExpressionParser_init : ParserObj :=
+  ExpressionParser_clear_cache { core := ⟨[], ⟨[], 0⟩⟩, tokens_cache := [], parse_cache := [] }
+
+/-- `parser.py`: `ExpressionParser.tokenize`.  Result AND object afterwards (an exception leaves the object as it
+is at that point: the tokenizer raises before the cache is written) -/
+def ExpressionParser_tokenize (self_ : ParserObj) (input_text : List Char) : Except PyErr (List Token) × ParserObj :=
+  if (!(pyDictHas self_.tokens_cache input_text)) then (
+    match Tokenizer_tokenize true input_text with
+    | .error e => (.error e, self_)
+    | .ok v_1 =>
+      let self_2 := { self_ with tokens_cache := pyDictSet self_.tokens_cache input_text v_1 };
+      (dictGet self_2.tokens_cache input_text, self_2))
+  else (
+    (dictGet self_.tokens_cache input_text, self_))
+
+/-- `parser.py`: `ExpressionParser.parse`.  Result AND object afterwards.  When `_parse` raises, the parsing
+fields `tokens` / `current_token` are left wherever the failure occurred: the translation keeps the old ones,
+and the history theorem (`Src_history_independent`) lets them be ARBITRARY before every call. -/
+def ExpressionParser_parse (self_ : ParserObj) (input_text : List Char) : Except PyErr Ex × ParserObj :=
+  if (pyDictHas self_.parse_cache input_text) then (
+    (dictGet self_.parse_cache input_text, self_))
+  else (
+    let r_2 := ExpressionParser_tokenize self_ input_text;
+    let self_3 := r_2.2;
+    match r_2.1 with
+    | .error e => (.error e, self_3)
+    | .ok v_4 =>
+      match ExpressionParser__parse self_3.core v_4 with
+      | .error e => (.error e, self_3)
+      | .ok r_5 =>
+        let self_6 := { self_3 with core := r_5.2 };
+        let self_7 := { self_6 with parse_cache := pyDictSet self_6.parse_cache input_text r_5.1 };
+        (dictGet self_7.parse_cache input_text, self_7))
+"""
+
+
+def _fn_dump(fn):
+    body = [s_ for s_ in fn.body if not (isinstance(s_, ast.Expr) and isinstance(s_.value, ast.Constant))]
+    return [ast.dump(s_) for s_ in body], [a.arg for a in fn.args.args]
+
+
+def translate_caches(ptree, ttree):
+    """-> (lean text, problems) for clear_cache / __init__ / tokenize / parse of ExpressionParser"""
+    problems = []
+    try:
+        cls = class_def(ptree, "ExpressionParser")
+        for name, src in CACHE_TEMPLATES.items():
+            fn = method(cls, name)
+            if fn.decorator_list:
+                raise Untranslatable(f"decorated {name}")
+            want = _fn_dump(ast.parse(src.strip()).body[0])
+            if _fn_dump(fn) != want:
+                raise Untranslatable(f"{name} is not the expected code")
+        # Tokenizer() means exclude_padding=True
+        tinit = method(class_def(ttree, "Tokenizer"), "__init__")
+        args = tinit.args
+        if [a.arg for a in args.args] != ["self", "exclude_padding"] or len(args.defaults) != 1 or not (
+                isinstance(args.defaults[0], ast.Constant) and args.defaults[0].value is True):
+            raise Untranslatable("Tokenizer.__init__ default of exclude_padding")
+        return CACHE_LEAN, problems
+    except Untranslatable as e:
+        problems.append(f"parser.py:caches: {e}")
+        return f"/- UNTRANSLATABLE parser.py: caches: {e} -/\n", problems
+
 
 def translate_parser(repo=None):
     """-> (lean text, problems)"""
@@ -823,6 +920,9 @@ def translate_parser(repo=None):
     for fn, aux, text in entry:
         out += aux
         out.append(text)
+    ctext, cproblems = translate_caches(ptree, ttree)
+    out.append(ctext)
+    problems += cproblems
     return "\n".join(out), problems
 
 
